@@ -19,6 +19,8 @@ CHECKS = {
     'C10': ('fault_enumeration', 'meta-event sequence reconstructed from the MacroStep vs what a listener and a recording property statechart saw; a property chart turning final at the k-th meta-event for every (quick: sampled) k', 'property-based testing (Hypothesis) + fault enumeration over the k-th meta-event'),
     'C13': ('exploration', 'model of entered_at/fired_at per state predicts every after()/idle() probe; frozen step time under mid-step clock moves', 'model-based property testing (Hypothesis)'),
     'C18': ('fault_enumeration', 'reference run vs runs continued from a pickle / deepcopy snapshot taken at every (quick: sampled) macro-step boundary', 'differential property testing (Hypothesis) over snapshot points'),
+    'C11': ('exploration', 'round-trip: structure comparison, == clause, idempotence and behavioural equality of original / re-import / re-re-import over generated text-heavy charts', 'round-trip property testing (Hypothesis)'),
+    'C12': ('fault_enumeration', 'independent validator of the listed rules decides accept/reject for every single-fault (thorough: pair) variant of generated valid documents; accepted charts are re-checked for structural soundness', 'property-based testing (Hypothesis) + fault-operator enumeration against an independent validator'),
 }
 NOT_YET = 'check not built yet in this round (planned, see DESIGN.md section 4)'
 
